@@ -156,18 +156,25 @@ func C04(c *Ctx) {
 	// formatting options of imports.Process (comments must survive: nolint markers, generated-code header)
 	if mf := load.FuncDecl(g.Pkg(""), "", "main"); mf != nil {
 		got := map[string]string{}
-		ast.Inspect(mf.Body, func(n ast.Node) bool {
-			cl, ok := n.(*ast.CompositeLit)
-			if !ok || nospace(cl.Type) != "imports.Options" {
-				return true
+		// the literal may sit in main or in a helper of the package (generated front-end excluded)
+		rootPkg := g.Pkg("")
+		for i, f := range rootPkg.Syntax {
+			if strings.HasSuffix(rootPkg.CompiledGoFiles[i], "/pigeon.go") || strings.HasSuffix(rootPkg.CompiledGoFiles[i], "_test.go") {
+				continue
 			}
-			for _, e := range cl.Elts {
-				if kv, ok := e.(*ast.KeyValueExpr); ok {
-					got[nospace(kv.Key)] = nospace(kv.Value)
+			ast.Inspect(f, func(n ast.Node) bool {
+				cl, ok := n.(*ast.CompositeLit)
+				if !ok || nospace(cl.Type) != "imports.Options" {
+					return true
 				}
-			}
-			return false
-		})
+				for _, e := range cl.Elts {
+					if kv, ok := e.(*ast.KeyValueExpr); ok {
+						got[nospace(kv.Key)] = nospace(kv.Value)
+					}
+				}
+				return false
+			})
+		}
 		ok := got["Comments"] == "true" && got["Fragment"] == "true" && got["TabIndent"] == "true" && got["TabWidth"] == "8"
 		r.Check(ok, "C04-e", "G.main:imports.Options", "", "main.go", "TabWidth 8, TabIndent, Comments, Fragment (the goimports defaults)", fmt.Sprintf("options are %v: the emitted file would lose its comments or be formatted unlike gofmt", got))
 	}
